@@ -1,10 +1,9 @@
 //! C03 — body filtering is invariant under chunking: implementation side.
 //! case: {"body": hex (valid UTF-8), "filters": [..], "headers": [[n,v]..], "scheds": [[cuts]..], "shape": ".."}
 //! obs:  {"one": hex of filter(b)+end(), "sch": ["=" | hex of the concatenated output of the schedule, ..]}
-//! oracle (implementation alone): every schedule gives the single-chunk output.  A failing schedule is
-//! classified by the tokenizer context of its cuts (real tokenizer run over the stream entering each html
-//! stage): cut-in-raw-text-zone / cut-in-comment / cut-in-declaration / cut-in-cdata are the classes of the
-//! known finding D4; a failure with only safe cuts has the signature "safe-cuts" (never listed => VIOLATION).
+//! oracle (implementation alone): every schedule gives the single-chunk output (signature "chunk-variance": a plain
+//! VIOLATION since the D4 repair fe7eac6).  The tokenizer context of the cuts (raw-text zone / comment / declaration /
+//! CDATA / safe) is computed with the real tokenizer and kept as tags (coverage statistics).
 #[path = "../filter_gen.rs"]
 mod filter_gen;
 use filter_gen::*;
@@ -201,26 +200,13 @@ fn run(case: &Value) -> Obs {
         }
     }
     if !failing.is_empty() {
-        let mut sig: Option<&'static str> = None;
-        let mut first_desc = String::new();
-        for i in &failing {
-            let chunks = split_at_cuts(&body, &scheds[*i]);
-            match classify_schedule(&fs, &headers, &chunks) {
-                None => {
-                    sig = Some("safe-cuts");
-                    first_desc = format!("schedule {:?} (all cuts safe) differs from the single-chunk run", scheds[*i]);
-                    break;
-                }
-                Some(c) => {
-                    if sig.is_none() {
-                        sig = Some(c);
-                        first_desc = format!("schedule {:?} differs from the single-chunk run ({c})", scheds[*i]);
-                    }
-                }
-            }
-        }
-        o.tags.push(format!("fail:{}", sig.unwrap()));
-        return o.fail(first_desc, sig.unwrap());
+        // Since fe7eac6 (tokenizer context carried across chunks) chunk invariance holds at EVERY cut: any difference is a
+        // violation.  The tokenizer context of the cuts is kept as a tag (statistics only).
+        let i = failing[0];
+        let chunks = split_at_cuts(&body, &scheds[i]);
+        let class = classify_schedule(&fs, &headers, &chunks).unwrap_or("safe-cuts");
+        o.tags.push(format!("fail-context:{class}"));
+        return o.fail(format!("schedule {:?} differs from the single-chunk run (context of the cuts: {class})", scheds[i]), "chunk-variance");
     }
     o
 }
